@@ -12,9 +12,13 @@ def prov (t : TractObj) : Nat × TRS.TrsDict × Str × OptStr × Int × OptStr :
 theorem tractParseMethod_prov (t : TractObj) (commit : Bool) (kw : TractKw) (r : TractObj × List Str)
     (h : tractParseMethod t commit kw = .ok r) : prov r.1 = prov t := by
   unfold tractParseMethod at h
-  split at h
-  · cases h
-  · split at h <;> (cases h; rfl)
+  simp only [] at h
+  cases hp : Tract.tractParse t.desc (effectiveTract t.attrs kw) (inheritedFlags t) with
+  | error e => rw [hp] at h; cases h
+  | ok r0 =>
+    rw [hp] at h
+    simp only [] at h
+    cases commit <;> (simp only [Bool.false_eq_true, if_false, if_true] at h; cases h; rfl)
 
 theorem tractPreprocess_prov (t : TractObj) (c : Option Bool) (commit : Bool) :
     prov (tractPreprocess t c commit).1 = prov t := by
